@@ -106,6 +106,10 @@ class SymEnv:
         if isinstance(a, SAngle) or isinstance(b, SAngle):
             a = a if isinstance(a, SAngle) else SAngle.const(a)
             return a.same(b)
+        if not is_sym(a) and not is_sym(b) and not z3.is_expr(a) and not z3.is_expr(b):
+            # two concrete floats computed by different float expressions: compare with the concrete tolerance
+            fa, fb = float(a), float(b)
+            return SBool(z3.BoolVal(abs(fa - fb) <= TOL * (1 + max(abs(fa), abs(fb)))))
         return SBool(zreal(a) == zreal(b))
 
     def le(self, a, b): return _cmp(a, b, "le")
@@ -631,12 +635,16 @@ def explore(harness_mod, jobs, opts, workers=None, max_paths=2000, budget_s=None
     pending = {}
     counts = {i: 0 for i in range(len(jobs))}
     complete = {i: True for i in range(len(jobs))}
-    queue = [(i, []) for i in range(len(jobs))]
+    queue = [(i, []) for i in reversed(range(len(jobs)))]      # LIFO: job 0 first, depth-first inside a job
     ctxm = mp.get_context("fork")
     with cf.ProcessPoolExecutor(max_workers=workers, mp_context=ctxm, initializer=_worker_init, initargs=(harness_mod, None, opts)) as ex:
         def submit():
             while queue and len(pending) < workers * 2:
-                i, prefix = queue.pop()   # LIFO = depth first
+                # earlier jobs first (small jobs are listed first and must not be starved), depth-first inside a job
+                # fair share: the job that has run the fewest paths so far goes next (small jobs complete early, large ones
+                # share what is left of the budget), depth-first inside a job
+                best = min(range(len(queue)), key=lambda q: (counts[queue[q][0]], queue[q][0], -len(queue[q][1])))
+                i, prefix = queue.pop(best)
                 if counts[i] >= max_paths or (budget_s and time.time() - t0 > budget_s):
                     complete[i] = False
                     continue
